@@ -258,11 +258,36 @@ def run_case(case, ctx):
                     return False
             return True
 
+        LIMIT = "C05/optimizer_limitation/minuit_stuck_near_parameter_limit"
+
+        def stuck_at_limit(x, val, eff_fixed):
+            """MINUIT only: a free parameter sits within 1% of the range of one of its limits (where MINUIT's internal
+            sine transformation flattens the objective, so MIGRAD sees a vanishing gradient and HESSE a large
+            error) although moving it inwards lowers the objective"""
+            if case["optimizer"] != "minuit":
+                return False
+            for i in range(cfg.npars):
+                if eff_fixed[i]:
+                    continue
+                lo, hi = bounds[i]
+                if min(x[i] - lo, hi - x[i]) > 1e-2 * (hi - lo):
+                    continue
+                sgn = 1.0 if x[i] - lo < hi - x[i] else -1.0
+                for frac in (1e-3, 1e-2, 0.1, 0.3):
+                    y = list(x)
+                    y[i] = x[i] + sgn * frac * (hi - lo)
+                    fy = nll2(y)
+                    if fy == fy and fy < val - tol_opt / 10:
+                        return True
+            return False
+
         def classify(default_name, do_stitch, do_grad, target, x, val, eff_fixed):
             if early_stop(do_stitch, do_grad, target):
                 return EARLY
             if is_local_min(x, val, eff_fixed):
                 return LOCAL
+            if stuck_at_limit(x, val, eff_fixed):
+                return LIMIT
             return default_name
         results = {}
         cfg_of = {}
